@@ -89,6 +89,10 @@ def check(ctx):
     # the statistic that is calibrated for bin j is the kernel's output at that bin's own frequency and length
     check_assembly(ctx, rule="R7-statistic-of-the-bin", only=("XX", "YY", "XY"))
     check_single_fields(ctx, rule="R5-stored-window-sums", only=("S12", "S2"))
+    # the kernels are handed the bin's own analysis frequency 2*pi*f/fs, segment length and window on every dispatcher path (a sinusoid analysed
+    # at its own frequency carries ps = A^2/2 only if the Goertzel step is that frequency, also when the length comes from a rounded fres request)
+    from ..dispatch import check_dispatch
+    check_dispatch(ctx, rule_prefix="R8.", want_roles=True, kaisers=(True,), roles=("L", "w", "omega"))
     # the sums S1, S2 that calibrate a density must be those of the window requested now (memoised windows keyed completely)
     from ..dispatch import check_cache_keys
     check_cache_keys(ctx, rule="R3-window-sums-current", about=("window",))
